@@ -1,0 +1,19 @@
+//go:build verif
+
+// Contracts for the thin os wrappers, read by /verif/govc.
+package os
+
+// the package variable is initialised from the standard library's (var ErrNotExist = os.ErrNotExist)
+//@ axiom errnotexist: ErrNotExist == os.ErrNotExist
+
+// the wrappers are transparent: callers are verified against the standard library's contracts
+//@ func MkdirAll
+//@   transparent
+//@ func ReadDir
+//@   transparent
+//@ func Create
+//@   transparent
+//@ func Open
+//@   transparent
+//@ func Remove
+//@   transparent
